@@ -3,7 +3,13 @@
 "task" (a definition, one rule, a node, a value, the action list of a JoinAttr) and the chunks it
 yields — the tree, the hook state, positions and errors abstracted away.
 
-`walk_out` (soundness): whatever `walkNode` / `walkRule` return satisfies `Out`.
+`Out … p pc k dt` additionally records that every token text taken from the tree satisfies `p`, every
+constant of a `Text` rule `pc`, and every walked node kind `k`;
+`dt` ("drop tokens") is true when the Dispatcher has no token handler (then tokens yield nothing).
+
+`walk_out` (soundness): whatever `walkNode` / `walkRule` return on a tree whose printed strings
+satisfy `p` and whose node kinds satisfy `k` (`valAll p k tree`) satisfies `Out … p k`, provided the
+constants of the definitions do (`defsOK`).  With `p = k = fun _ => true` there is no condition on the tree.
 Every later property of chunk streams is an induction over `Out`.
 -/
 import CalmVerif.Proofs.UnparseNet
@@ -13,59 +19,62 @@ open CalmVerif
 variable {σ : Type}
 
 inductive Shape where
-  | token (t : String)             -- the token handler called with text t
+  | token (t : String)             -- the token handler called with a text taken from the tree
+  | ctoken (t : String)            -- the token handler called with the constant of a `Text` rule
   | value                          -- `_walk(v, token=…)`: a node or a token
   | node                           -- a node walked with its looked-up definition
   | rules (rs : List Rule)         -- a definition / nested body run on the current node
   | rule (r : Rule)
   | acts (sep : List Rule) (as : List JAct)
 
-inductive Out (tbl : List (LKey × Option HandlerId)) (defs : Defs) (ek : List String) :
-    Shape → List Chunk → Prop where
-  | tokNone (t : String) : Out tbl defs ek (.token t) []
-  | tokOne (t : String) (f : Frag) : f.text = t → Out tbl defs ek (.token t) [.frag f]
-  | valueTok (t : String) (cs) : Out tbl defs ek (.token t) cs → Out tbl defs ek .value cs
-  | valueNode (cs) : Out tbl defs ek .node cs → Out tbl defs ek .value cs
-  | node (kind : String) (d : List Rule) (cs) :
-      lookupDef defs kind = some d → Out tbl defs ek (.rules d) cs → Out tbl defs ek .node cs
-  | rulesNil : Out tbl defs ek (.rules []) []
-  | rulesCons (r rs c1 c2) : Out tbl defs ek (.rule r) c1 → Out tbl defs ek (.rules rs) c2 →
-      Out tbl defs ek (.rules (r :: rs)) (c1 ++ c2)
+inductive Out (tbl : List (LKey × Option HandlerId)) (defs : Defs) (ek : List String)
+    (p pc : String → Bool) (k : String → Bool) (dt : Bool) : Shape → List Chunk → Prop where
+  | tokNone (t : String) : dt = true → Out tbl defs ek p pc k dt (.token t) []
+  | tokOne (t : String) (f : Frag) : f.text = t → p t = true → Out tbl defs ek p pc k dt (.token t) [.frag f]
+  | ctokNone (t : String) : dt = true → Out tbl defs ek p pc k dt (.ctoken t) []
+  | ctokOne (t : String) (f : Frag) : f.text = t → pc t = true → Out tbl defs ek p pc k dt (.ctoken t) [.frag f]
+  | valueTok (t : String) (cs) : Out tbl defs ek p pc k dt (.token t) cs → Out tbl defs ek p pc k dt .value cs
+  | valueNode (cs) : Out tbl defs ek p pc k dt .node cs → Out tbl defs ek p pc k dt .value cs
+  | node (kind : String) (d : List Rule) (cs) : k kind = true →
+      lookupDef defs kind = some d → Out tbl defs ek p pc k dt (.rules d) cs → Out tbl defs ek p pc k dt .node cs
+  | rulesNil : Out tbl defs ek p pc k dt (.rules []) []
+  | rulesCons (r rs c1 c2) : Out tbl defs ek p pc k dt (.rule r) c1 → Out tbl defs ek p pc k dt (.rules rs) c2 →
+      Out tbl defs ek p pc k dt (.rules (r :: rs)) (c1 ++ c2)
   | layoutSome (m h) (nd : Val) : lookupLayout tbl (LKey.single m) = some h →
-      Out tbl defs ek (.rule (.layout m)) [.layout m h nd]
-  | layoutNone (m) : lookupLayout tbl (LKey.single m) = none → Out tbl defs ek (.rule (.layout m)) []
-  | struct (m) : Out tbl defs ek (.rule (.struct m)) []
-  | text (v pos cs) : Out tbl defs ek (.token v) cs → Out tbl defs ek (.rule (.text v pos)) cs
-  | attrEmpty (a pos) : Out tbl defs ek (.rule (.attr a pos)) []
-  | attrValue (a pos cs) : Out tbl defs ek .value cs → Out tbl defs ek (.rule (.attr a pos)) cs
-  | commentsAttrEmpty (a pos) : Out tbl defs ek (.rule (.commentsAttr a pos)) []
-  | commentsAttrValue (a pos cs) : Out tbl defs ek .value cs → Out tbl defs ek (.rule (.commentsAttr a pos)) cs
-  | operatorEmpty (a v pos) : Out tbl defs ek (.rule (.operator a v pos)) []
-  | operatorValue (a v pos cs) : Out tbl defs ek .value cs → Out tbl defs ek (.rule (.operator a v pos)) cs
-  | optionalSkip (a body) : Out tbl defs ek (.rule (.optional a body)) []
-  | optionalTake (a body cs) : Out tbl defs ek (.rules body) cs → Out tbl defs ek (.rule (.optional a body)) cs
+      Out tbl defs ek p pc k dt (.rule (.layout m)) [.layout m h nd]
+  | layoutNone (m) : lookupLayout tbl (LKey.single m) = none → Out tbl defs ek p pc k dt (.rule (.layout m)) []
+  | struct (m) : Out tbl defs ek p pc k dt (.rule (.struct m)) []
+  | text (v pos cs) : Out tbl defs ek p pc k dt (.ctoken v) cs → Out tbl defs ek p pc k dt (.rule (.text v pos)) cs
+  | attrEmpty (a pos) : Out tbl defs ek p pc k dt (.rule (.attr a pos)) []
+  | attrValue (a pos cs) : Out tbl defs ek p pc k dt .value cs → Out tbl defs ek p pc k dt (.rule (.attr a pos)) cs
+  | commentsAttrEmpty (a pos) : Out tbl defs ek p pc k dt (.rule (.commentsAttr a pos)) []
+  | commentsAttrValue (a pos cs) : Out tbl defs ek p pc k dt .value cs → Out tbl defs ek p pc k dt (.rule (.commentsAttr a pos)) cs
+  | operatorEmpty (a v pos) : Out tbl defs ek p pc k dt (.rule (.operator a v pos)) []
+  | operatorValue (a v pos cs) : Out tbl defs ek p pc k dt .value cs → Out tbl defs ek p pc k dt (.rule (.operator a v pos)) cs
+  | optionalSkip (a body) : Out tbl defs ek p pc k dt (.rule (.optional a body)) []
+  | optionalTake (a body cs) : Out tbl defs ek p pc k dt (.rules body) cs → Out tbl defs ek p pc k dt (.rule (.optional a body)) cs
   | joinAttr (a sep pos) (items : List (Step × Val)) (cs) :
-      Out tbl defs ek (.acts sep (joinActs items)) cs → Out tbl defs ek (.rule (.joinAttr a sep pos)) cs
+      Out tbl defs ek p pc k dt (.acts sep (joinActs items)) cs → Out tbl defs ek p pc k dt (.rule (.joinAttr a sep pos)) cs
   | elisionToken (a v pos) (t : String) (cs) :
-      Out tbl defs ek (.token t) cs → Out tbl defs ek (.rule (.elisionToken a v pos)) cs
+      Out tbl defs ek p pc k dt (.token t) cs → Out tbl defs ek p pc k dt (.rule (.elisionToken a v pos)) cs
   | elisionJoinAttr (a sep pos) (items : List (Step × Val)) (cs) :
-      Out tbl defs ek (.acts sep (elisionActs ek items)) cs →
-      Out tbl defs ek (.rule (.elisionJoinAttr a sep pos)) cs
-  | actsNil (sep) : Out tbl defs ek (.acts sep []) []
-  | actsItem (sep st v as c1 c2) : Out tbl defs ek .value c1 → Out tbl defs ek (.acts sep as) c2 →
-      Out tbl defs ek (.acts sep (.item st v :: as)) (c1 ++ c2)
-  | actsSep (sep as c1 c2) : Out tbl defs ek (.rules sep) c1 → Out tbl defs ek (.acts sep as) c2 →
-      Out tbl defs ek (.acts sep (.sep :: as)) (c1 ++ c2)
-  | actsEsep (sep as c1 c2) : Out tbl defs ek .node c1 → Out tbl defs ek (.acts sep as) c2 →
-      Out tbl defs ek (.acts sep (.esep :: as)) (c1 ++ c2)
+      Out tbl defs ek p pc k dt (.acts sep (elisionActs ek items)) cs →
+      Out tbl defs ek p pc k dt (.rule (.elisionJoinAttr a sep pos)) cs
+  | actsNil (sep) : Out tbl defs ek p pc k dt (.acts sep []) []
+  | actsItem (sep st v as c1 c2) : Out tbl defs ek p pc k dt .value c1 → Out tbl defs ek p pc k dt (.acts sep as) c2 →
+      Out tbl defs ek p pc k dt (.acts sep (.item st v :: as)) (c1 ++ c2)
+  | actsSep (sep as c1 c2) : Out tbl defs ek p pc k dt (.rules sep) c1 → Out tbl defs ek p pc k dt (.acts sep as) c2 →
+      Out tbl defs ek p pc k dt (.acts sep (.sep :: as)) (c1 ++ c2)
+  | actsEsep (sep as c1 c2) : Out tbl defs ek p pc k dt .node c1 → Out tbl defs ek p pc k dt (.acts sep as) c2 →
+      Out tbl defs ek p pc k dt (.acts sep (.esep :: as)) (c1 ++ c2)
 
 /-! ### the token handlers yield nothing or one fragment carrying the text -/
 
 theorem tokenHandler_out (hd : HData) (th : Option TokenHandlerId) (pos : Option Int) (node : Val)
     (t : String) (src : Src) (fs : List Frag) (h : tokenHandler hd th pos node t src = .ok fs) :
-    fs = [] ∨ ∃ f, fs = [f] ∧ f.text = t := by
+    (fs = [] ∧ th = none) ∨ ∃ f, fs = [f] ∧ f.text = t := by
   cases th with
-  | none => simp [tokenHandler] at h; exact Or.inl h
+  | none => simp [tokenHandler] at h; exact Or.inl ⟨h, rfl⟩
   | some th =>
     cases th with
     | strDefault =>
@@ -91,77 +100,385 @@ theorem except_map_ok {ε α β : Type} {f : α → β} {x : Except ε α} {b : 
   | error e => simp [Except.map] at h
   | ok a => simp [Except.map] at h; exact ⟨a, rfl, h⟩
 
+/-! ### trees whose printed strings satisfy `p` and whose node kinds satisfy `k` -/
+
+theorem listAll_mem {p k : String → Bool} : ∀ {xs : List Val}, listAll p k xs = true → ∀ v ∈ xs, valAll p k v = true := by
+  intro xs
+  induction xs with
+  | nil => intro _ v hv; simp at hv
+  | cons x xs ih =>
+    intro h v hv
+    simp only [listAll, Bool.and_eq_true] at h
+    rcases List.mem_cons.mp hv with rfl | hv
+    · exact h.1
+    · exact ih h.2 v hv
+
+theorem attrsAll_lookup {p k : String → Bool} : ∀ {as : List (String × Val)} {a : String} {v : Val},
+    attrsAll p k as = true → printedAttr a = true → lookupAttr as a = some v → valAll p k v = true := by
+  intro as
+  induction as with
+  | nil => intro a v _ _ h; simp [lookupAttr] at h
+  | cons x rest ih =>
+    intro a v h ha hl
+    obtain ⟨b, w⟩ := x
+    simp only [attrsAll, Bool.and_eq_true, Bool.or_eq_true, Bool.not_eq_true'] at h
+    simp only [lookupAttr] at hl
+    split at hl
+    · rename_i hb
+      have : b = a := by simpa using hb
+      subst this
+      cases hl
+      rcases h.1 with h1 | h1
+      · rw [h1] at ha; cases ha
+      · exact h1
+    · exact ih h.2 ha hl
+
+theorem nodeAttr_all {p k : String → Bool} {node : Val} {a : String} {v : Val}
+    (hn : valAll p k node = true) (ha : printedAttr a = true) (hl : nodeAttr node a = some v) :
+    valAll p k v = true := by
+  cases node with
+  | node kind as =>
+    simp only [valAll, Bool.and_eq_true] at hn
+    exact attrsAll_lookup hn.2 ha hl
+  | _ => simp [nodeAttr] at hl
+
+theorem getattrVal_all {p k : String → Bool} {node : Val} {a : String} {v : Val}
+    (hn : valAll p k node = true) (hl : getattrVal node a = .ok v) :
+    valAll p k v = true := by
+  unfold getattrVal at hl
+  by_cases hc : (a == "comments") = true
+  · simp only [hc, ↓reduceIte] at hl
+    split at hl
+    · rename_i w hw
+      cases hl
+      exact nodeAttr_all hn (by simp [printedAttr]) hw
+    · cases hl; simp [valAll]
+  · simp only [hc, Bool.false_eq_true, ↓reduceIte] at hl
+    by_cases hm : Val.isMeta a = true
+    · simp [hm] at hl
+    · simp only [hm, Bool.false_eq_true, ↓reduceIte] at hl
+      split at hl
+      · rename_i w hw
+        cases hl
+        exact nodeAttr_all hn (by simp [printedAttr, hm]) hw
+      · cases hl
+
+mutual
+  /-- the constants of a rule: `Text` values satisfy `pc`, the other constants `p` -/
+  def ruleOK (p pc : String → Bool) : Rule → Bool
+    | .text v _ => pc v
+    | .attr _ _ => true
+    | .commentsAttr _ _ => true
+    | .joinAttr _ sep _ => rulesOK p pc sep
+    | .elisionToken _ v _ => p v
+    | .elisionJoinAttr _ sep _ => rulesOK p pc sep
+    | .optional _ body => rulesOK p pc body
+    | .operator _ v _ =>
+      (match v with
+       | some w => p w
+       | none => true)
+    | .layout _ => true
+    | .struct _ => true
+  def rulesOK (p pc : String → Bool) : List Rule → Bool
+    | [] => true
+    | r :: rs => ruleOK p pc r && rulesOK p pc rs
+end
+
+def defsOK (p pc : String → Bool) : Defs → Bool
+  | [] => true
+  | (_, d) :: rest => rulesOK p pc d && defsOK p pc rest
+
+theorem lookupDef_ok {p pc : String → Bool} {defs : Defs} (h : defsOK p pc defs = true) {kind : String} {d : List Rule}
+    (hl : lookupDef defs kind = some d) : rulesOK p pc d = true := by
+  induction defs with
+  | nil => simp [lookupDef] at hl
+  | cons x rest ih =>
+    obtain ⟨k', d'⟩ := x
+    simp only [defsOK, Bool.and_eq_true] at h
+    simp only [lookupDef] at hl
+    split at hl
+    · cases hl; exact h.1
+    · exact ih h.2 hl
+
+/-- what a configuration must satisfy for `Out … p k` -/
+structure CfgOK (cfg : Cfg σ) (p pc k : String → Bool) : Prop where
+  defs : defsOK p pc cfg.defs = true
+  sep : valAll p k cfg.elisionSep = true
+  /-- `value * n` of ElisionToken -/
+  mul : ∀ v n, p v = true → p (strMul v n) = true
+  /-- where a value-returning deferrable handler removes line continuations, `p` is closed under that -/
+  cont : (cfg.literal = some .literalContinuation ∨ cfg.lineComment = some .literalContinuation ∨
+      cfg.blockComment = some .literalContinuation) →
+    ∀ t : String, p t = true → p (String.ofList (dropLineCont cfg.hd t.toList)) = true
+  /-- whatever the Resolve hook returns is printable -/
+  resolve : ∀ f, cfg.resolve = some f → ∀ path node s v s', f path node s = .ok (v, s') → valAll p k v = true
+
 section
-variable (cfg : Cfg σ)
+variable (cfg : Cfg σ) (p pc k : String → Bool)
+
+local notation "OutC" => Out cfg.layout cfg.defs cfg.hd.elisionKinds p pc k cfg.tokenHandler.isNone
 
 theorem emitToken_out (pos : Option Int) (cur : Val) (src : Src) (v : Val) (cs : List Chunk)
-    (h : emitToken cfg pos cur src v = .ok cs) :
-    ∃ t, Out cfg.layout cfg.defs cfg.hd.elisionKinds (.token t) cs := by
+    (hv : valAll p k v = true) (h : emitToken cfg pos cur src v = .ok cs) :
+    ∃ t, OutC (.token t) cs := by
   cases v with
   | str t =>
     simp only [emitToken] at h
     obtain ⟨fs, h1, h2⟩ := except_map_ok h
-    rcases tokenHandler_out _ _ _ _ _ _ _ h1 with rfl | ⟨f, rfl, hf⟩
-    · subst h2; exact ⟨t, .tokNone t⟩
-    · subst h2; exact ⟨t, .tokOne t f hf⟩
+    rcases tokenHandler_out _ _ _ _ _ _ _ h1 with ⟨rfl, hth⟩ | ⟨f, rfl, hf⟩
+    · subst h2; exact ⟨t, .tokNone t (by simp [hth])⟩
+    · subst h2; exact ⟨t, .tokOne t f hf (by simpa [valAll] using hv)⟩
   | _ => simp [emitToken] at h
 
 theorem emitToken_str_out (pos : Option Int) (cur : Val) (src : Src) (t : String) (cs : List Chunk)
-    (h : emitToken cfg pos cur src (.str t) = .ok cs) :
-    Out cfg.layout cfg.defs cfg.hd.elisionKinds (.token t) cs := by
+    (hp : p t = true) (h : emitToken cfg pos cur src (.str t) = .ok cs) : OutC (.token t) cs := by
   simp only [emitToken] at h
   obtain ⟨fs, h1, h2⟩ := except_map_ok h
-  rcases tokenHandler_out _ _ _ _ _ _ _ h1 with rfl | ⟨f, rfl, hf⟩
-  · subst h2; exact .tokNone t
-  · subst h2; exact .tokOne t f hf
+  rcases tokenHandler_out _ _ _ _ _ _ _ h1 with ⟨rfl, hth⟩ | ⟨f, rfl, hf⟩
+  · subst h2; exact .tokNone t (by simp [hth])
+  · subst h2; exact .tokOne t f hf hp
+
+theorem emitToken_const_out (pos : Option Int) (cur : Val) (src : Src) (t : String) (cs : List Chunk)
+    (hp : pc t = true) (h : emitToken cfg pos cur src (.str t) = .ok cs) : OutC (.ctoken t) cs := by
+  simp only [emitToken] at h
+  obtain ⟨fs, h1, h2⟩ := except_map_ok h
+  rcases tokenHandler_out _ _ _ _ _ _ _ h1 with ⟨rfl, hth⟩ | ⟨f, rfl, hf⟩
+  · subst h2; exact .ctokNone t (by simp [hth])
+  · subst h2; exact .ctokOne t f hf hp
 
 def OutFor (defn : Option (List Rule)) (cs : List Chunk) : Prop :=
   match defn with
-  | none => Out cfg.layout cfg.defs cfg.hd.elisionKinds .node cs
-  | some d => Out cfg.layout cfg.defs cfg.hd.elisionKinds (.rules d) cs
+  | none => OutC .node cs
+  | some d => OutC (.rules d) cs
+
+def DefnOK (defn : Option (List Rule)) : Prop :=
+  match defn with
+  | none => True
+  | some d => rulesOK p pc d = true
 
 /-- what the recursive callback must satisfy -/
 def WalkFnOut (wn : WalkFn σ) : Prop :=
-  ∀ path src node defn s cs s', wn path src node defn s = .ok (cs, s') → OutFor cfg defn cs
+  ∀ path src node defn s cs s', valAll p k node = true → DefnOK p pc defn →
+    wn path src node defn s = .ok (cs, s') → OutFor cfg p pc k defn cs
 
-theorem walkValue_out (wn : WalkFn σ) (hwn : WalkFnOut cfg wn) (path : Path) (src : Src) (cur : Val)
-    (pos : Option Int) (st : Step) (v : Val) (s : σ) (cs : List Chunk) (s' : σ)
-    (h : walkValue cfg wn path src cur pos st v s = .ok (cs, s')) :
-    Out cfg.layout cfg.defs cfg.hd.elisionKinds .value cs := by
+variable {cfg p pc k}
+
+theorem valueHandler_all (hd : HData) (h : DeferHandlerId)
+    (hcont : h = .literalContinuation → ∀ t : String, p t = true → p (String.ofList (dropLineCont hd t.toList)) = true)
+    (node v : Val) (hn : valAll p k node = true) (hv : valueHandler hd h node = .ok v) : valAll p k v = true := by
+  unfold valueHandler at hv
+  split at hv
+  · cases hv
+  · rename_i w hw
+    have hwv : valAll p k w = true := nodeAttr_all hn (by decide) hw
+    cases h with
+    | comment => simp only [Except.ok.injEq] at hv; subst hv; exact hwv
+    | literalContinuation =>
+      simp only at hv
+      split at hv
+      · rename_i t
+        simp only [Except.ok.injEq] at hv; subst hv
+        simp only [valAll] at hwv ⊢
+        exact hcont rfl t hwv
+      · cases hv
+    | obfResolve => simp at hv
+
+theorem getSrc_all (hc : CfgOK cfg p pc k) (path : Path) (node : Val) (a : AttrSrc) (s : σ) (v : Val) (s' : σ)
+    (hn : valAll p k node = true) (h : getSrc cfg path node a s = .ok (v, s')) :
+    valAll p k v = true := by
+  cases a with
+  | name a =>
+    simp only [getSrc] at h
+    obtain ⟨w, h1, h2⟩ := except_map_ok h
+    cases h2
+    exact getattrVal_all hn h1
+  | iter => simp [getSrc] at h
+  | declare a =>
+    simp only [getSrc] at h
+    split at h
+    · cases h
+    · rename_i target ht
+      have htv := getattrVal_all hn ht
+      split at h
+      · cases h; exact htv
+      · obtain ⟨w, _, h2⟩ := except_map_ok h
+        cases h2; exact htv
+  | resolve =>
+    simp only [getSrc] at h
+    split at h
+    · cases h
+    · split at h
+      · rename_i f hf
+        exact hc.resolve f hf _ _ _ _ _ h
+      · obtain ⟨w, h1, h2⟩ := except_map_ok h
+        cases h2
+        exact getattrVal_all hn h1
+  | literal =>
+    simp only [getSrc] at h
+    split at h
+    · rename_i hh hl
+      obtain ⟨w, h1, h2⟩ := except_map_ok h
+      cases h2
+      exact valueHandler_all _ hh (fun e => hc.cont (Or.inl (by rw [hl, e]))) _ _ hn h1
+    · obtain ⟨w, h1, h2⟩ := except_map_ok h
+      cases h2
+      exact getattrVal_all hn h1
+  | lineComment =>
+    simp only [getSrc] at h
+    split at h
+    · rename_i hh hl
+      obtain ⟨w, h1, h2⟩ := except_map_ok h
+      cases h2
+      exact valueHandler_all _ hh (fun e => hc.cont (Or.inr (Or.inl (by rw [hl, e])))) _ _ hn h1
+    · cases h; simp [valAll]
+  | blockComment =>
+    simp only [getSrc] at h
+    split at h
+    · rename_i hh hl
+      obtain ⟨w, h1, h2⟩ := except_map_ok h
+      cases h2
+      exact valueHandler_all _ hh (fun e => hc.cont (Or.inr (Or.inr (by rw [hl, e])))) _ _ hn h1
+    · cases h; simp [valAll]
+
+theorem enumFrom_mem {α : Type} : ∀ (xs : List α) (i : Nat) (q : Nat × α), q ∈ enumFrom i xs → q.2 ∈ xs := by
+  intro xs
+  induction xs with
+  | nil => intro i q h; simp [enumFrom] at h
+  | cons x xs ih =>
+    intro i q h
+    simp only [enumFrom, List.mem_cons] at h
+    rcases h with rfl | h
+    · simp
+    · exact List.mem_cons_of_mem _ (ih _ _ h)
+
+theorem iterNode_all (node : Val) (items : List (Step × Val)) (hn : valAll p k node = true)
+    (h : iterNode cfg node = .ok items) : ∀ q ∈ items, valAll p k q.2 = true := by
+  unfold iterNode at h
+  split at h
+  · split at h
+    · split at h
+      · cases h; simp
+      · rename_i xs hx
+        cases h
+        have hxs : valAll p k (.list xs) = true := nodeAttr_all hn (by decide) hx
+        intro q hq
+        simp only [List.mem_map, List.mem_filter] at hq
+        obtain ⟨r, ⟨hr, _⟩, rfl⟩ := hq
+        exact listAll_mem (by simpa [valAll] using hxs) _ (enumFrom_mem _ _ _ hr)
+      · cases h
+    · cases h
+  · cases h
+
+theorem getIter_all (hc : CfgOK cfg p pc k) (path : Path) (node : Val) (a : AttrSrc) (s : σ)
+    (items : List (Step × Val)) (s' : σ)
+    (hn : valAll p k node = true) (h : getIter cfg path node a s = .ok (items, s')) :
+    ∀ q ∈ items, valAll p k q.2 = true := by
+  unfold getIter at h
+  split at h
+  · obtain ⟨w, h1, h2⟩ := except_map_ok h
+    cases h2
+    exact iterNode_all node _ hn h1
+  · split at h
+    · cases h
+    · rename_i v s1 hg
+      have hv := getSrc_all hc path node a s v s1 hn hg
+      cases v with
+      | list xs =>
+        simp only [Except.ok.injEq, Prod.mk.injEq] at h
+        obtain ⟨rfl, _⟩ := h
+        intro q hq
+        simp only [List.mem_map] at hq
+        obtain ⟨r, hr, rfl⟩ := hq
+        exact listAll_mem (by simpa [valAll] using hv) _ (enumFrom_mem _ _ _ hr)
+      | node kind as =>
+        simp only at h
+        obtain ⟨w, h1, h2⟩ := except_map_ok h
+        cases h2
+        exact iterNode_all _ _ hv h1
+      | none => simp at h
+      | int n => simp at h
+      | bool b => simp at h
+      | str t => simp at h
+
+theorem joinActs_all (items : List (Step × Val)) (h : ∀ q ∈ items, valAll p k q.2 = true) :
+    ∀ st v, JAct.item st v ∈ joinActs items → valAll p k v = true := by
+  intro st v ha
+  cases items with
+  | nil => simp [joinActs] at ha
+  | cons x rest =>
+    simp only [joinActs, List.mem_cons, List.mem_flatMap, JAct.item.injEq] at ha
+    rcases ha with ⟨_, hv⟩ | ⟨q, hq, hm⟩
+    · have := h x (by simp); rw [← hv] at this; exact this
+    · simp only [List.mem_cons, List.mem_nil_iff, or_false, JAct.item.injEq, reduceCtorEq, false_or] at hm
+      have := h q (by simp [hq]); rw [← hm.2] at this; exact this
+
+theorem elisionActsAux_all (ek : List String) : ∀ (items : List (Step × Val)) (prev : Val),
+    (∀ q ∈ items, valAll p k q.2 = true) →
+    ∀ st v, JAct.item st v ∈ elisionActsAux ek prev items → valAll p k v = true := by
+  intro items
+  induction items with
+  | nil => intro prev _ st v ha; simp [elisionActsAux] at ha
+  | cons x rest ih =>
+    intro prev h st v ha
+    simp only [elisionActsAux, List.mem_append, List.mem_cons, JAct.item.injEq] at ha
+    rcases ha with (ha | ha) | ⟨_, hv⟩ | ha
+    · split at ha <;> simp at ha
+    · split at ha <;> simp at ha
+    · have := h x (by simp); rw [← hv] at this; exact this
+    · exact ih x.2 (fun q hq => h q (by simp [hq])) st v ha
+
+theorem elisionActs_all (ek : List String) (items : List (Step × Val))
+    (h : ∀ q ∈ items, valAll p k q.2 = true) :
+    ∀ st v, JAct.item st v ∈ elisionActs ek items → valAll p k v = true := by
+  intro st v ha
+  cases items with
+  | nil => simp [elisionActs] at ha
+  | cons x rest =>
+    simp only [elisionActs, List.mem_cons, JAct.item.injEq] at ha
+    rcases ha with ⟨_, hv⟩ | ha
+    · have := h x (by simp); rw [← hv] at this; exact this
+    · exact elisionActsAux_all ek rest x.2 (fun q hq => h q (by simp [hq])) st v ha
+
+theorem walkValue_out (hc : CfgOK cfg p pc k) (wn : WalkFn σ) (hwn : WalkFnOut cfg p pc k wn) (path : Path) (src : Src)
+    (cur : Val) (pos : Option Int) (st : Step) (v : Val) (s : σ) (cs : List Chunk) (s' : σ)
+    (hv : valAll p k v = true)
+    (h : walkValue cfg wn path src cur pos st v s = .ok (cs, s')) : OutC .value cs := by
   unfold walkValue at h
   split at h
-  · exact .valueNode _ (hwn _ _ _ none _ _ _ h)
+  · exact .valueNode _ (hwn _ _ _ none _ _ _ hv trivial h)
   · obtain ⟨cs', h1, h2⟩ := except_map_ok h
     simp only [Prod.mk.injEq] at h2
     obtain ⟨rfl, rfl⟩ := h2
-    obtain ⟨t, ht⟩ := emitToken_out cfg _ _ _ _ _ h1
+    obtain ⟨t, ht⟩ := emitToken_out cfg p pc k _ _ _ _ _ hv h1
     exact .valueTok t _ ht
 
-theorem runActs_out (wn : WalkFn σ) (hwn : WalkFnOut cfg wn) (path : Path) (src : Src) (cur : Val)
-    (pos : Option Int) (sep : List Rule) :
+theorem runActs_out (hc : CfgOK cfg p pc k) (wn : WalkFn σ) (hwn : WalkFnOut cfg p pc k wn) (path : Path) (src : Src)
+    (cur : Val) (hcur : valAll p k cur = true) (pos : Option Int) (sep : List Rule) (hsep : rulesOK p pc sep = true) :
     ∀ (as : List JAct) (s : σ) (cs : List Chunk) (s' : σ),
-      seqM (runAct cfg wn path src cur pos sep) as s = .ok (cs, s') →
-      Out cfg.layout cfg.defs cfg.hd.elisionKinds (.acts sep as) cs := by
+      (∀ st v, JAct.item st v ∈ as → valAll p k v = true) →
+      seqM (runAct cfg wn path src cur pos sep) as s = .ok (cs, s') → OutC (.acts sep as) cs := by
   intro as
   induction as with
   | nil =>
-    intro s cs s' h
+    intro s cs s' _ h
     rw [seqM_nil_ok] at h
     rw [h.1]; exact .actsNil sep
   | cons a as ih =>
-    intro s cs s' h
+    intro s cs s' hall h
     rw [seqM_cons_ok] at h
     obtain ⟨c1, s1, c2, h1, h2, rfl⟩ := h
-    have ih' := ih s1 c2 s' h2
+    have ih' := ih s1 c2 s' (fun st v hb => hall st v (by simp [hb])) h2
     cases a with
-    | item st v => exact .actsItem sep st v as c1 c2 (walkValue_out cfg wn hwn _ _ _ _ _ _ _ _ _ h1) ih'
-    | sep => exact .actsSep sep as c1 c2 (hwn _ _ _ (some sep) _ _ _ h1) ih'
-    | esep => exact .actsEsep sep as c1 c2 (hwn _ _ _ none _ _ _ h1) ih'
+    | item st v =>
+      exact .actsItem sep st v as c1 c2
+        (walkValue_out hc wn hwn _ _ _ _ _ _ _ _ _ (hall st v (by simp)) h1) ih'
+    | sep => exact .actsSep sep as c1 c2 (hwn _ _ _ (some sep) _ _ _ hcur hsep h1) ih'
+    | esep => exact .actsEsep sep as c1 c2 (hwn _ _ _ none _ _ _ hc.sep trivial h1) ih'
 
-theorem ruleStep_out (wn : WalkFn σ) (hwn : WalkFnOut cfg wn) (path : Path) (src : Src) (node : Val)
-    (rule : Rule) (s : σ) (cs : List Chunk) (s' : σ)
-    (h : ruleStep cfg wn path src node rule s = .ok (cs, s')) :
-    Out cfg.layout cfg.defs cfg.hd.elisionKinds (.rule rule) cs := by
+theorem ruleStep_out (hc : CfgOK cfg p pc k) (wn : WalkFn σ) (hwn : WalkFnOut cfg p pc k wn) (path : Path) (src : Src)
+    (node : Val) (hn : valAll p k node = true) (rule : Rule) (hr : ruleOK p pc rule = true)
+    (s : σ) (cs : List Chunk) (s' : σ)
+    (h : ruleStep cfg wn path src node rule s = .ok (cs, s')) : OutC (.rule rule) cs := by
   cases rule with
   | layout m =>
     simp only [ruleStep] at h
@@ -185,128 +502,212 @@ theorem ruleStep_out (wn : WalkFn σ) (hwn : WalkFnOut cfg wn) (path : Path) (sr
     obtain ⟨cs', h1, h2⟩ := except_map_ok h
     simp only [Prod.mk.injEq] at h2
     rw [← h2.1]
-    exact .text v pos _ (emitToken_str_out cfg _ _ _ _ _ h1)
+    exact .text v pos _ (emitToken_const_out cfg p pc k _ _ _ _ _ (by simpa [ruleOK] using hr) h1)
   | attr a pos =>
     simp only [ruleStep] at h
     split at h
     · cases h
-    · split at h
+    · rename_i v s1 hg
+      have hv := getSrc_all hc path node a s v s1 hn hg
+      split at h
       · simp only [Except.ok.injEq, Prod.mk.injEq] at h
         rw [← h.1]; exact .attrEmpty a pos
-      · exact .attrValue a pos _ (walkValue_out cfg wn hwn _ _ _ _ _ _ _ _ _ h)
+      · exact .attrValue a pos _ (walkValue_out hc wn hwn _ _ _ _ _ _ _ _ _ hv h)
   | commentsAttr a pos =>
     simp only [ruleStep] at h
     split at h
     · cases h
-    · split at h
+    · rename_i v s1 hg
+      have hv := getSrc_all hc path node a s v s1 hn hg
+      split at h
       · simp only [Except.ok.injEq, Prod.mk.injEq] at h
         rw [← h.1]; exact .commentsAttrEmpty a pos
-      · exact .commentsAttrValue a pos _ (walkValue_out cfg wn hwn _ _ _ _ _ _ _ _ _ h)
+      · exact .commentsAttrValue a pos _ (walkValue_out hc wn hwn _ _ _ _ _ _ _ _ _ hv h)
   | operator a v pos =>
     simp only [ruleStep] at h
+    simp only [ruleOK] at hr
     split at h
     · cases h
-    · split at h
+    · rename_i w hw
+      have hwv : valAll p k w = true := by
+        cases a with
+        | some n =>
+          simp only at hw
+          exact getattrVal_all hn hw
+        | none =>
+          simp only [Except.ok.injEq] at hw
+          subst hw
+          cases v with
+          | some x => simpa [valAll] using hr
+          | none => simp [valAll]
+      split at h
       · simp only [Except.ok.injEq, Prod.mk.injEq] at h
         rw [← h.1]; exact .operatorEmpty a v pos
-      · exact .operatorValue a v pos _ (walkValue_out cfg wn hwn _ _ _ _ _ _ _ _ _ h)
+      · exact .operatorValue a v pos _ (walkValue_out hc wn hwn _ _ _ _ _ _ _ _ _ hwv h)
   | optional a body =>
     simp only [ruleStep] at h
+    simp only [ruleOK] at hr
     split at h
     · cases h
     · split at h
       · simp only [Except.ok.injEq, Prod.mk.injEq] at h
         rw [← h.1]; exact .optionalSkip a body
-      · exact .optionalTake a body _ (hwn _ _ _ (some body) _ _ _ h)
+      · exact .optionalTake a body _ (hwn _ _ _ (some body) _ _ _ hn hr h)
   | joinAttr a sep pos =>
     simp only [ruleStep] at h
+    simp only [ruleOK] at hr
     split at h
     · cases h
-    · rename_i items s1 _
-      exact .joinAttr a sep pos items _ (runActs_out cfg wn hwn _ _ _ _ _ _ _ _ _ h)
+    · rename_i items s1 hg
+      have hit := getIter_all hc path node a s items s1 hn hg
+      exact .joinAttr a sep pos items _
+        (runActs_out hc wn hwn _ _ _ hn _ _ hr _ _ _ _ (joinActs_all items hit) h)
   | elisionToken a v pos =>
     simp only [ruleStep] at h
+    simp only [ruleOK] at hr
     split at h
     · cases h
     · split at h
       · obtain ⟨cs', h1, h2⟩ := except_map_ok h
         simp only [Prod.mk.injEq] at h2
         rw [← h2.1]
-        exact .elisionToken a v pos _ _ (emitToken_str_out cfg _ _ _ _ _ h1)
+        exact .elisionToken a v pos _ _ (emitToken_str_out cfg p pc k _ _ _ _ _ (hc.mul _ _ hr) h1)
       · obtain ⟨cs', h1, h2⟩ := except_map_ok h
         simp only [Prod.mk.injEq] at h2
         rw [← h2.1]
-        exact .elisionToken a v pos _ _ (emitToken_str_out cfg _ _ _ _ _ h1)
+        exact .elisionToken a v pos _ _ (emitToken_str_out cfg p pc k _ _ _ _ _ (hc.mul _ _ hr) h1)
       · cases h
   | elisionJoinAttr a sep pos =>
     simp only [ruleStep] at h
+    simp only [ruleOK] at hr
     split at h
     · cases h
-    · rename_i items s1 _
-      exact .elisionJoinAttr a sep pos items _ (runActs_out cfg wn hwn _ _ _ _ _ _ _ _ _ h)
+    · rename_i items s1 hg
+      have hit := getIter_all hc path node a s items s1 hn hg
+      exact .elisionJoinAttr a sep pos items _
+        (runActs_out hc wn hwn _ _ _ hn _ _ hr _ _ _ _ (elisionActs_all _ items hit) h)
 
 theorem seqM_rules_out (wr : Rule → σ → Except Err (List Chunk × σ))
-    (hwr : ∀ r s cs s', wr r s = .ok (cs, s') → Out cfg.layout cfg.defs cfg.hd.elisionKinds (.rule r) cs) :
-    ∀ (rs : List Rule) (s : σ) (cs : List Chunk) (s' : σ), seqM wr rs s = .ok (cs, s') →
-      Out cfg.layout cfg.defs cfg.hd.elisionKinds (.rules rs) cs := by
+    (hwr : ∀ r s cs s', ruleOK p pc r = true → wr r s = .ok (cs, s') → OutC (.rule r) cs) :
+    ∀ (rs : List Rule) (s : σ) (cs : List Chunk) (s' : σ), rulesOK p pc rs = true → seqM wr rs s = .ok (cs, s') →
+      OutC (.rules rs) cs := by
   intro rs
   induction rs with
   | nil =>
-    intro s cs s' h
+    intro s cs s' _ h
     rw [seqM_nil_ok] at h
     rw [h.1]; exact .rulesNil
   | cons r rs ih =>
-    intro s cs s' h
+    intro s cs s' hok h
+    simp only [rulesOK, Bool.and_eq_true] at hok
     rw [seqM_cons_ok] at h
     obtain ⟨c1, s1, c2, h1, h2, rfl⟩ := h
-    exact .rulesCons r rs c1 c2 (hwr _ _ _ _ h1) (ih _ _ _ h2)
+    exact .rulesCons r rs c1 c2 (hwr _ _ _ _ hok.1 h1) (ih _ _ _ hok.2 h2)
 
-theorem nodeStep_out (wr : Path → Src → Val → Rule → σ → Except Err (List Chunk × σ))
-    (hwr : ∀ p sr n r s cs s', wr p sr n r s = .ok (cs, s') →
-      Out cfg.layout cfg.defs cfg.hd.elisionKinds (.rule r) cs)
+theorem nodeStep_out (hc : CfgOK cfg p pc k) (wr : Path → Src → Val → Rule → σ → Except Err (List Chunk × σ))
+    (hwr : ∀ q sr n r s cs s', valAll p k n = true → ruleOK p pc r = true → wr q sr n r s = .ok (cs, s') →
+      OutC (.rule r) cs)
     (path : Path) (src : Src) (node : Val) (defn : Option (List Rule)) (s : σ) (cs : List Chunk) (s' : σ)
-    (h : nodeStep cfg wr path src node defn s = .ok (cs, s')) : OutFor cfg defn cs := by
+    (hn : valAll p k node = true) (hd : DefnOK p pc defn)
+    (h : nodeStep cfg wr path src node defn s = .ok (cs, s')) : OutFor cfg p pc k defn cs := by
   unfold nodeStep at h
   split at h
   · rename_i kind as
     cases defn with
     | some d =>
       simp only at h
-      exact seqM_rules_out cfg _ (fun r s cs s' hh => hwr _ _ _ _ _ _ _ hh) _ _ _ _ h
+      exact seqM_rules_out _ (fun r s cs s' hr hh => hwr _ _ _ _ _ _ _ hn hr hh) _ _ _ _ hd h
     | none =>
       simp only at h
       split at h
       · cases h
       · rename_i rules hl
-        exact .node kind rules cs hl (seqM_rules_out cfg _ (fun r s cs s' hh => hwr _ _ _ _ _ _ _ hh) _ _ _ _ h)
+        have hk : k kind = true := by
+          simp only [valAll, Bool.and_eq_true] at hn; exact hn.1
+        exact .node kind rules cs hk hl
+          (seqM_rules_out _ (fun r s cs s' hr hh => hwr _ _ _ _ _ _ _ hn hr hh) _ _ _ _
+            (lookupDef_ok hc.defs hl) h)
   · cases h
 
 /-- soundness of `Out` -/
-theorem walk_out : ∀ (fuel : Nat),
-    WalkFnOut cfg (walkNode cfg fuel) ∧
-    (∀ p sr n r s cs s', walkRule cfg fuel p sr n r s = .ok (cs, s') →
-      Out cfg.layout cfg.defs cfg.hd.elisionKinds (.rule r) cs) := by
+theorem walk_out (hc : CfgOK cfg p pc k) : ∀ (fuel : Nat),
+    WalkFnOut cfg p pc k (walkNode cfg fuel) ∧
+    (∀ q sr n r s cs s', valAll p k n = true → ruleOK p pc r = true →
+      walkRule cfg fuel q sr n r s = .ok (cs, s') → OutC (.rule r) cs) := by
   intro fuel
   induction fuel with
   | zero =>
     constructor
-    · intro path src node defn s cs s' h
+    · intro path src node defn s cs s' _ _ h
       simp [walkNode] at h
-    · intro p sr n r s cs s' h
+    · intro q sr n r s cs s' _ _ h
       simp [walkRule] at h
   | succ fuel ih =>
     constructor
-    · intro path src node defn s cs s' h
+    · intro path src node defn s cs s' hn hd h
       simp only [walkNode] at h
-      exact nodeStep_out cfg _ ih.2 _ _ _ _ _ _ _ h
-    · intro p sr n r s cs s' h
+      exact nodeStep_out hc _ ih.2 _ _ _ _ _ _ _ hn hd h
+    · intro q sr n r s cs s' hn hr h
       simp only [walkRule] at h
-      exact ruleStep_out cfg _ ih.1 _ _ _ _ _ _ _ h
+      exact ruleStep_out hc _ ih.1 _ _ _ hn _ hr _ _ _ h
 
-theorem walkChunks_out (tree : Val) (s : σ) (cs : List Chunk) (s' : σ)
-    (h : walkChunks cfg tree s = .ok (cs, s')) :
-    Out cfg.layout cfg.defs cfg.hd.elisionKinds .node cs :=
-  (walk_out cfg _).1 _ _ _ none _ _ _ h
+theorem walkChunks_out (hc : CfgOK cfg p pc k) (tree : Val) (ht : valAll p k tree = true) (s : σ)
+    (cs : List Chunk) (s' : σ) (h : walkChunks cfg tree s = .ok (cs, s')) : OutC .node cs :=
+  (walk_out hc _).1 _ _ _ none _ _ _ ht trivial h
 
 end
+
+/-! ### no condition: `p = k = fun _ => true` -/
+
+mutual
+  theorem valAll_any : ∀ v : Val, valAll anyStr anyStr v = true
+    | .str _ => rfl
+    | .list xs => by simp only [valAll]; exact listAll_any xs
+    | .node _ as => by simp only [valAll, anyStr, Bool.true_and]; exact attrsAll_any as
+    | .none => rfl
+    | .bool _ => rfl
+    | .int _ => rfl
+  theorem listAll_any : ∀ xs : List Val, listAll anyStr anyStr xs = true
+    | [] => rfl
+    | v :: vs => by simp only [listAll, valAll_any v, listAll_any vs, Bool.and_self]
+  theorem attrsAll_any : ∀ as : List (String × Val), attrsAll anyStr anyStr as = true
+    | [] => rfl
+    | (_, v) :: rest => by simp only [attrsAll, valAll_any v, attrsAll_any rest, Bool.or_true, Bool.and_self]
+end
+
+mutual
+  theorem ruleOK_any : ∀ r : Rule, ruleOK anyStr anyStr r = true
+    | .text _ _ => rfl
+    | .attr _ _ => rfl
+    | .commentsAttr _ _ => rfl
+    | .joinAttr _ sep _ => by simp only [ruleOK]; exact rulesOK_any sep
+    | .elisionToken _ _ _ => rfl
+    | .elisionJoinAttr _ sep _ => by simp only [ruleOK]; exact rulesOK_any sep
+    | .optional _ body => by simp only [ruleOK]; exact rulesOK_any body
+    | .operator _ v _ => by cases v <;> rfl
+    | .layout _ => rfl
+    | .struct _ => rfl
+  theorem rulesOK_any : ∀ rs : List Rule, rulesOK anyStr anyStr rs = true
+    | [] => rfl
+    | r :: rs => by simp only [rulesOK, ruleOK_any r, rulesOK_any rs, Bool.and_self]
+end
+
+theorem defsOK_any : ∀ defs : Defs, defsOK anyStr anyStr defs = true
+  | [] => rfl
+  | (_, d) :: rest => by simp only [defsOK, rulesOK_any d, defsOK_any rest, Bool.and_self]
+
+/-- every configuration satisfies the trivial instance -/
+theorem cfgOK_any (cfg : Cfg σ) : CfgOK cfg anyStr anyStr anyStr where
+  defs := defsOK_any _
+  sep := valAll_any _
+  mul := fun _ _ _ => rfl
+  cont := fun _ _ _ => rfl
+  resolve := fun _ _ _ _ _ _ _ _ => valAll_any _
+
+/-- unconditional soundness: any tree, any configuration -/
+theorem walkChunks_outAny (cfg : Cfg σ) (tree : Val) (s : σ) (cs : List Chunk) (s' : σ)
+    (h : walkChunks cfg tree s = .ok (cs, s')) :
+    Out cfg.layout cfg.defs cfg.hd.elisionKinds anyStr anyStr anyStr cfg.tokenHandler.isNone .node cs :=
+  walkChunks_out (cfgOK_any cfg) tree (valAll_any tree) s cs s' h
+
 end CalmVerif.Unparse
